@@ -97,6 +97,12 @@ IMAGES = [
                    extras=["xattrs"])),
     dict(spec=dict(name="c11_ext3_i128", kb=8192, args="-t ext3 -b 1024 -I 128 -J size=1",
                    tree="wide", extras=["xattrs"]), index=True),
+    # a directory compacted by e2fsck -fD while checksums were off: interior htree nodes are full
+    # (count == limit, no room for the checksum tail) while every leaf keeps 24 spare bytes, so
+    # enabling metadata_csum hinges on the full-node case alone
+    dict(spec=dict(name="c11_fullnode_nocsum", kb=32768,
+                   args="-t ext4 -b 1024 -I 256 -N 8192 -O ^metadata_csum,^has_journal,^resize_inode",
+                   tree=None), index=True, many=4500, many_name="entry_with_a_longish_name_%05d"),
     dict(spec=dict(name="c11_noflex_nocsum", kb=8192,
                    args="-t ext4 -b 2048 -I 256 -O ^flex_bg,^metadata_csum,^uninit_bg,^has_journal",
                    tree="std", extras=["xattrs"])),
@@ -121,6 +127,12 @@ def image_info(path):
         kinds = {}
         for o in MM.metadata_map(img):
             kinds[o.kind] = kinds.get(o.kind, 0) + 1
+            if o.kind in ("dx_root", "dx_node"):
+                raw = img.blk(o.off // img.bs)
+                at = 0x20 if o.kind == "dx_root" else 8
+                limit, count = struct.unpack_from("<HH", raw, at)
+                if limit and count == limit:
+                    kinds["dx_full_node"] = kinds.get("dx_full_node", 0) + 1
             if o.kind == "inode":
                 i = img.inode(o.ino)
                 if i.flags & I.FL_EA_INODE:
@@ -155,7 +167,10 @@ def w_base(arg):
             with open(sfile, "w") as f:
                 f.write("mkdir /c11many\n")
                 for k in range(ent["many"]):
-                    f.write("write /dev/null /c11many/%04d%s\n" % (k, "n" * 236))
+                    if ent.get("many_name"):
+                        f.write("write /dev/null /c11many/%s\n" % (ent["many_name"] % k))
+                    else:
+                        f.write("write /dev/null /c11many/%04d%s\n" % (k, "n" * 236))
             r = run.run([b.tool("debugfs"), "-w", "-f", sfile, path], env=env, timeout=300)
             if r.rc != 0:
                 return name, "debugfs population failed: %s" % r.etext[-300:], info
@@ -373,6 +388,8 @@ FORCED = [
      [("feat", "orphan_file", False), ("feat", "orphan_file", True)]),
     ("journal-remove-with-orphan_file", lambda i: _has(i, "orphan_file"),
      [("feat", "has_journal", False)]),
+    ("csum-on-full-htree-node", lambda i: not _has(i, "metadata_csum") and i["kinds"].get("dx_full_node"),
+     [("feat", "metadata_csum", True), ("uuid",)]),
     ("csum-on-htree-nocsum", lambda i: not _has(i, "metadata_csum") and i["kinds"].get("dx_root"),
      [("feat", "metadata_csum", True), ("feat", "metadata_csum", False)]),
 ]
